@@ -29,13 +29,15 @@ def case_strategy():
         if draw(st.integers(0, 5)) == 0:
             # a vertical shift that is not exactly representable: layer boundaries and the surfaces lying on them must move together
             rc['ops'] = rc.get('ops', []) + [{'op': 'translate', 'shift': [0.0, 0.0, draw(st.sampled_from([0.3, 2.3, -4.9, 7.7, 0.001, 1e-3 + 1e3]))]}]
+        if draw(st.integers(0, 7)) == 0: rc['ops'] = rc.get('ops', []) + [{'op': 'drop_layer'}]
         then = draw(st.sampled_from([None, None, 'translate', 'translate', 'rotate', 'same']))
         if then == 'translate':
             then = ['translate', [draw(st.sampled_from([0.0, 12.5, -300.0])), draw(st.sampled_from([0.0, 40.0])),
                                   draw(st.sampled_from([0.0, 7.25, -55.0, 120.0, 0.3, 2.3, -4.9, 7.7, 0.001]))]]
         elif then == 'rotate': then = ['rotate', draw(st.sampled_from([30.0, 90.0, -45.0]))]
         elif then: then = [then]
-        return {'rc': rc, 'blockmap': draw(st.sampled_from([None, None, 'all', 'some', 'swap', 'cycle', 'chain'])), 'then': then}
+        setters = draw(st.lists(st.sampled_from([0, 1, 2]), min_size=1, max_size=2)) if draw(st.integers(0, 3)) == 0 else None
+        return {'rc': rc, 'setters': setters, 'blockmap': draw(st.sampled_from([None, None, 'all', 'some', 'swap', 'cycle', 'chain'])), 'then': then}
     return s()
 
 
@@ -62,6 +64,10 @@ def run_case(case, R):
     if bad:
         for b in bad: R.exclude('input:' + b)
         return
+    for v in case.get('setters') or []:
+        # the atmosphere type changed through its property on the finished geometry (the last value counts)
+        R.label('setter:atmosphere_type:%d->%d' % (g.atmosphere_type, v))
+        with R.lib('set-atmosphere_type'): g.atmosphere_type = v
     if verify(case, R, g) is False: return
     # conversion history on ONE geometry object: convert, move the geometry, convert again - the second grid must be
     # the grid of the geometry as it is now (nothing remembered from the first conversion)
